@@ -31,15 +31,15 @@ pub fn check_spec(prop: &str) -> Option<CheckSpec> {
         ),
         "C08" => base(
             "C08",
-            vec![Box::new(super::scen_order::Order { variant: "plain" }), Box::new(super::scen_order::Order { variant: "imports" })],
+            vec![Box::new(super::scen_order::Order { variant: "plain" }), Box::new(super::scen_order::Order { variant: "imports" }), Box::new(super::scen_order::Order { variant: "corpus" })],
             vec!["the rayon shim lets workers pull items in any order (the statement quantifies over all permutations of per-file analysis order)", "a new process = a new std hash seed: simulated by the seeded getrandom per simulated thread"],
         ),
         "C02" => base("C02", vec![st("C02", "plain", "override-plain"), st("C02", "imports", "override-imports"), st("C02", "venv", "override-venv")], vec!["go-to-definition on a definition's own name may answer nothing or the definition itself"]),
-        "C04" => base("C04", vec![st("C04", "plain", "refs-plain"), st("C04", "imports", "refs-imports"), st("C04", "venv", "refs-venv"), Box::new(super::scen_history::History { prop: "C04" })], vec!["position queries inside a currently unparsable document are excluded (its recorded spans no longer denote tokens of the cached text)"]),
+        "C04" => base("C04", vec![st("C04", "plain", "refs-plain"), st("C04", "imports", "refs-imports"), st("C04", "venv", "refs-venv"), st("C04", "corpus", "refs-corpus"), Box::new(super::scen_history::History { prop: "C04" })], vec!["position queries inside a currently unparsable document are excluded (its recorded spans no longer denote tokens of the cached text)"]),
         "C05" => base("C05", vec![st("C05", "plain", "agree-plain"), st("C05", "imports", "agree-imports"), st("C05", "venv", "agree-venv")], vec!["pure cross-feature comparison; the reference model is only used to name violation classes"]),
         "C14" => base("C14", vec![st("C14", "imports", "visible-imports"), st("C14", "venv", "visible-venv")], vec!["the generator records the module file each import statement means; VIRTUAL_ENV fallback is not explored (process-global environment)"]),
         "C16" => base("C16", vec![st("C16", "plain", "deps-plain"), st("C16", "imports", "deps-imports")], vec!["the reference dependency graph resolves each dependency with the PytestModel from the depending fixture's file"]),
-        "C06" => base("C06", vec![Box::new(super::scen_history::History { prop: "C06" })], vec!["the fresh twin analyses files in the order of each file's last successful analysis so that differences are due to history, not to the registration-order dependence C08 owns", "position queries inside a currently unparsable document are excluded"]),
+        "C06" => base("C06", vec![Box::new(super::scen_history::History { prop: "C06" }), Box::new(super::scen_history::History { prop: "C06L" })], vec!["the fresh twin analyses files in the order of each file's last successful analysis so that differences are due to history, not to the registration-order dependence C08 owns", "position queries inside a currently unparsable document are excluded"]),
         "C07" => base("C07", vec![Box::new(super::scen_history::History { prop: "C07" })], vec!["eviction cannot be switched off in the cold twin, so it is checked by the filler-file metamorphic relation", "open/close and cache pressure are applied only to documents whose buffer equals the on-disk text (the statement says 'unmodified')"]),
         "C10" => base("C10", vec![Box::new(super::scen_scanedit::ScanEdit)], vec!["the client waits a generated number of scheduler steps (virtual time) before sending the notification; the handler then interleaves with the scan workers at DashMap lock points"]),
         "C19" => base("C19", vec![Box::new(super::scen_diag::Diag)], vec!["the history starts after the initial scan reported completion (a document opened during the scan is C10's subject)", "expected findings come from the library on a fresh twin built from the latest valid contents, the changed document analysed last"]),
